@@ -1,6 +1,7 @@
 package kernel
 
 import (
+	"sync"
 	"fmt"
 	"hash/fnv"
 	"strings"
@@ -25,6 +26,8 @@ type Decision struct {
 type World struct {
 	Plan *Plan
 	Res  *Result
+
+	seamMu sync.Mutex
 
 	tapePos  int
 	tapeRNG  *RNG
@@ -148,6 +151,10 @@ func (w *World) EndOp(proc int, outcome string) {
 // point and a fault point. The returned decision is applied by the wrapper.
 func (w *World) Seam(proc int, site, detail string) Decision {
 	w.Yield(proc, site)
+	// (the network engine calls seams of its key store from the proxy's goroutines; the task engine runs one
+	// process at a time and never contends for this lock)
+	w.seamMu.Lock()
+	defer w.seamMu.Unlock()
 	w.Event(proc, site, detail)
 	if w.Res.Steps > w.MaxSteps {
 		w.Res.Cut = true
